@@ -65,6 +65,11 @@ CLAIMED = {
    text="Proof: for every source byte string and every target of non-zero size the result has length ceil(bytes / size), its leading bytes are the source bytes, the rest are zero, and the count computation neither divides by zero nor overflows; for a zero-sized target the pinned code path divides by zero (C16_zst_target_refuted) - the genuine defect recorded in known_findings.json. Tie: all ordered pairs of grid types incl. zero-sized sources and targets, lengths 0..=L, every residue, catch_unwind; length, prefix, tail, alignment of the new buffer, layout of its allocation, leaks.",
    note="Hand model (correspondence is the tie). The monitor demands 'never panics' for every target incl. zero-sized ones.",
    ref="5/C16"),
+ "C17": dict(
+   technique="Coq theorems over the Contiguous rows and the default from_integer range test REGENERATED from the macro-expanded source on every run: every row's [MIN, MAX] is exactly the valid-value set of its type within an integer type of the same width (row-wise decision procedure proved sound, re-run on the regenerated table); correspondence with exhaustive 8/16-bit probes",
+   text="Proof: for every built-in row (19 at the pinned tree; the table is re-read from the expanded source each run) the integer type has the width of Self and, among its values, MIN_VALUE..=MAX_VALUE is exactly the set of valid values of Self (bool 0..1, integers all, unsigned NonZero all but 0); from_integer returns Some exactly on [MIN_VALUE, MAX_VALUE] (the translated range test, all integers) and into_integer(from_integer v) = v; the range test is identical under every feature set. Tie: every built-in impl probed with every value of 8- and 16-bit types and MIN-1..MAX+1/0/-1/extremes of wider ones; derived enums of every integer repr (ascending, descending, shuffled; at the type's extremes; single-variant) probed the same way against hand-implemented twins that use the default methods.",
+   note="Trusted: Coq kernel; nightly rustc's -Zunpretty=expanded + the table extractor (bm2coq/expand.rs); Model/LangInt.v (validity of built-in types); harness. Derived enums: the derive logic itself is modelled in C06.",
+   ref="5/C17"),
 }
 
 checks = []
